@@ -32,6 +32,12 @@ Pat == /\ l <= Len(Trace) /\ Trace[l].ev = "Pat" /\ l' = l + 1
                             THEN {<<l, "rejected next to valid entries, but no UnacceptableOriginPatternError names the string">>} ELSE {})
                     \cup (IF \E i \in DOMAIN e.ctx : MustSelfMatch(c) /\ e.ctx[i].accepted /\ ~e.ctx[i].self
                             THEN {<<l, "an accepted wildcard-free pattern, listed next to other entries, does not allow itself as Origin">>} ELSE {})
+                    \* the same string in configurations that are unacceptable for reasons of their own (another field, the extra
+                    \* configuration): every problem is reported
+                    \cup (IF \E i \in DOMAIN e.octx : Judged(c) /\ ~Valid(c) /\ ~e.octx[i].accepted /\ ~e.octx[i].named /\ ~e.octx[i].panicked
+                            THEN {<<l, "in a configuration with an unrelated problem, no UnacceptableOriginPatternError names the defective string">>} ELSE {})
+                    \cup (IF \E i \in DOMAIN e.octx : Judged(c) /\ Valid(c) /\ e.octx[i].named
+                            THEN {<<l, "in a configuration with an unrelated problem, a pattern of the documented form is reported as unacceptable">>} ELSE {})
                     \cup bad
           /\ stats' = [stats EXCEPT !.valid = @ + (IF Judged(c) /\ Valid(c) THEN 1 ELSE 0),
                                     !.invalid = @ + (IF Judged(c) /\ ~Valid(c) THEN 1 ELSE 0),
